@@ -40,6 +40,7 @@ type seqModel interface {
 }
 
 type component interface {
+	Cfg() string                                            // the configuration variant of this run (function of the seed)
 	Gen(r *rand.Rand, thread int, i int, lin bool) []string // one operation
 	Exec(thread int, op []string) string                    // run it on the real object
 	Model() seqModel
@@ -60,15 +61,15 @@ func tick() int64 { return atomic.AddInt64(&clock, 1) }
 func newComponent(name string, seed int64, threads int) component {
 	switch name {
 	case "flushable":
-		return newFlushable(false)
+		return newFlushable(false, seed)
 	case "lazy":
-		return newFlushable(true)
+		return newFlushable(true, seed)
 	case "pool":
-		return newPool()
+		return newPool(seed)
 	case "wlru":
 		return newWlru(seed)
 	case "sem":
-		return newSem()
+		return newSem(seed)
 	case "buffer":
 		return newBuffer(seed)
 	case "snap":
@@ -120,7 +121,9 @@ func oneCase(args []string) {
 	case args[0] == "SNAPMID":
 		snapMid()
 	case args[0] == "POOLMID":
-		poolMid()
+		poolMid(false)
+	case args[0] == "POOLRD":
+		poolMid(true)
 	case (args[0] == "LIN" || args[0] == "STRESS") && len(args) >= 5:
 		seed, _ := strconv.ParseInt(args[2], 10, 64)
 		threads, _ := strconv.Atoi(args[3])
@@ -158,11 +161,11 @@ func run(lin bool, comp string, seed int64, threads, nops int) {
 				}
 				if lin {
 					a := tick()
-					res := c.Exec(t, op)
+					res := safeExec(c, t, op)
 					b := tick()
 					recs[t] = append(recs[t], rec{t, a, b, op, res})
 				} else {
-					c.Exec(t, op)
+					safeExec(c, t, op)
 				}
 			}
 		}(t)
@@ -171,18 +174,28 @@ func run(lin bool, comp string, seed int64, threads, nops int) {
 	wg.Wait()
 	c.Finish()
 	if !lin {
-		fmt.Printf("ops=%d\n", threads*nops)
+		fmt.Printf("ops=%d cfg=%s\n", threads*nops, c.Cfg())
 		return
 	}
 	var h []rec
 	for _, r := range recs {
 		h = append(h, r...)
 	}
-	extra := ""
+	extra := " cfg=" + c.Cfg()
 	if b, ok := c.(*bufComp); ok {
-		extra = b.dagToken()
+		extra += b.dagToken()
 	}
 	report(h, c.Model(), comp, extra)
+}
+
+// safeExec: an operation that panics (documented use-after-Close behaviour of Flushable) is an observation
+func safeExec(c component, t int, op []string) (res string) {
+	defer func() {
+		if r := recover(); r != nil {
+			res = "panic"
+		}
+	}()
+	return c.Exec(t, op)
 }
 
 func overlapping(h []rec) int {
@@ -225,6 +238,18 @@ func report(h []rec, m seqModel, comp string, extra string) {
 		// PSize calls that overlap a handle write are dropped?
 		var h2 []rec
 		pseudo := 100
+		writeOverlapsFlush := false // the finding is about writes through the handles that overlap a pool operation
+		for _, f := range h {
+			if f.op[0] != "PFlush" && f.op[0] != "PSize" {
+				continue
+			}
+			for _, w := range h {
+				if w.op[0] == "H" && len(w.op) > 2 && (w.op[2] == "Put" || w.op[2] == "Delete" || w.op[2] == "Batch" || w.op[2] == "DropNotFlushed") &&
+					w.t != f.t && w.inv < f.ret && f.inv < w.ret {
+					writeOverlapsFlush = true
+				}
+			}
+		}
 		for _, r := range h {
 			switch {
 			case r.op[0] == "PFlush":
@@ -246,7 +271,7 @@ func report(h []rec, m seqModel, comp string, extra string) {
 				h2 = append(h2, r)
 			}
 		}
-		if linearizable(h2, m) {
+		if writeOverlapsFlush && linearizable(h2, m) {
 			why = " why=pool-multi-store-not-atomic"
 		}
 	}
